@@ -53,9 +53,9 @@ func runC18(r *vk.Run) {
 		r.Inconclusive("C18 needs the cmd/docker-logql test binary (renderResult)")
 		return
 	}
-	reps := r.N(3, 8)
+	reps := r.N(2, 8)
 
-	r.Phase("orders", r.N(4, 40), func(c *vk.Case) {
+	r.Phase("orders", r.N(3, 40), func(c *vk.Case) {
 		for n := 1; n <= 5; n++ {
 			inv := c14Inventory(c.Rng, n, 4)
 			collide := c.Rng.Intn(n)
@@ -278,7 +278,7 @@ func runC18(r *vk.Run) {
 			c.Fail("", fmt.Sprintf("%d data race report(s), %d distinct", blocks, len(distinct)), map[string]any{"reports": distinct})
 		})
 	}
-	r.Require("runs_compared", 5000)
+	r.Require("runs_compared", 4000)
 	r.Require("renders_compared", 1000)
 	r.Require("distinct:completion_orders", 150)
 	r.Require("stress_runs", 50)
